@@ -811,7 +811,9 @@ class Output(object):
         value = int.from_bytes(raw.read(8)[::-1], 'big')
         lock_script_size = read_varbyteint(raw)
         lock_script = raw.read(lock_script_size)
-        return Output(value=value, lock_script=lock_script, output_n=output_n, strict=strict, network=network)
+        # An empty locking script is unusual but valid, there is nothing to derive or check then
+        return Output(value=value, lock_script=lock_script, output_n=output_n,
+                      strict=strict if lock_script else False, network=network)
 
     # TODO: Write and rewrite locktime methods
     # def set_locktime - CLTV (BIP65)
